@@ -271,9 +271,9 @@ def object_findings(name, obj):
     tname = type(obj).__name__
     if tname == 'SshProtocolMessage' and len(data) > 255:
         # RFC 4253 §4.2: "The maximum length of the string is 255 characters, including the Carriage Return and
-        # Line Feed" — composed without complaint, refused by the library's own parser
+        # Line Feed" (compose() refuses longer ones since the repair)
         return [('banner-composed-over-255', 'SshProtocolMessage.compose() produced an identification string of {} '
-                 'bytes ({}…); RFC 4253 allows 255 and the parser refuses it'.format(len(data), hx(data)[:60]))]
+                 'bytes ({}…); RFC 4253 allows 255'.format(len(data), hx(data)[:60]))]
     if ref is not None and ref != data:
         bad.append(('encode:' + tname, '{}: composed {} but the RFC encoding is {}'.format(tname, hx(data)[:400], hx(ref)[:400])))
     # the reference decoder recovers the values from what the implementation composed
@@ -422,7 +422,7 @@ def corpus():
     for b in [r_u32(5) + b'en-US', r_u32(9) + b'en-,de-DE', r_u32(5) + b'e1-US', r_u32(6) + b'en--US', r_u32(9) + b'abcdefghi', r_u32(2) + b'en',
               r_u32(11) + b'en-abcdefghi', r_u32(1) + b'-', r_u32(3) + b'en,', r_u32(0)]:
         out.append(('SshLanguageVector', b))
-    # binary packets with inconsistent inner lengths (the record parser is not confined to packet_length)
+    # binary packets with inconsistent inner lengths (an invalid value since the record parser is confined to packet_length)
     unimpl = bytes([3]) + r_u32(1)
     for b in [r_u32(2) + b'\x00' + unimpl, r_u32(6) + b'\x00' + unimpl, r_u32(34) + b'\x00' + unimpl + bytes(28),
               r_u32(12) + b'\xc8' + unimpl + bytes(200), r_u32(12) + b'\xc8' + unimpl + bytes(6), r_u32(0), r_u32(0) + b'\x00',
@@ -498,6 +498,49 @@ def certificate_option_probe():
     return bad
 
 
+def certificate_extension_name_probe():
+    """PROTOCOL.certkeys: unknown extensions are to be ignored — a name that merely starts with a known name
+    (the string-enum parser matches prefixes) must not make the whole vector unparsable"""
+    from cryptoparser.ssh.key import SshCertExtensionVector
+    wire = r_string(r_string(b'permit-pty-extended@example.com') + r_string(b''))
+    try:
+        vec = SshCertExtensionVector.parse_exact_size(wire)
+        names = [getattr(e, 'extension_name', None) for e in vec]
+        if names != ['permit-pty-extended@example.com']:
+            return [('cert-extension-name-prefix', 'extension permit-pty-extended@example.com parsed as {}'.format(names))]
+    except Exception as exc:  # pylint: disable=broad-except
+        return [('cert-extension-name-prefix', 'an extension vector holding the unknown extension '
+                 '"permit-pty-extended@example.com" is rejected with {} (its name starts with the known "permit-pty")'.format(
+                     core.err_line(exc)))]
+    return []
+
+
+def banner_limit_probe():
+    """RFC 4253 §4.2: 255 bytes including CR LF is the maximum — composed at 255, refused at 256"""
+    from harness import gen_ssh
+    import random
+    from cryptoparser.common.exception import TooMuchData
+    bad = []
+    rng = random.Random(255)
+    for total, with_comment in ((255, False), (255, True), (256, False), (256, True), (300, True)):
+        obj = gen_ssh.sized_banner(rng, total, with_comment)
+        try:
+            data = bytes(obj.compose())
+        except TooMuchData as exc:
+            if total <= 255 or exc.bytes_needed != total - 255:
+                bad.append(('banner-limit', 'identification string of {} bytes: compose() raised TooMuchData({})'.format(
+                    total, exc.bytes_needed)))
+            continue
+        except Exception as exc:  # pylint: disable=broad-except
+            bad.append(('banner-limit', 'identification string of {} bytes: compose() raised {}'.format(total, core.err_line(exc))))
+            continue
+        if total > 255:
+            bad.append(('banner-composed-over-255', 'SshProtocolMessage.compose() produced {} bytes; RFC 4253 allows 255'.format(len(data))))
+        elif len(data) != total:
+            bad.append(('banner-limit', 'sized banner of {} bytes composed to {}'.format(total, len(data))))
+    return bad
+
+
 class Dispatch(object):
     @staticmethod
     def lines(case):
@@ -567,6 +610,10 @@ def run(run, driver_ok=True, deep=False):  # pylint: disable=redefined-outer-nam
                 run.finding(key, message, c)
     for key, message in certificate_option_probe():
         run.finding(key, message, {'kind': 'probe', 'name': 'certificate_option_probe'})
+    for key, message in banner_limit_probe():
+        run.finding(key, message, {'kind': 'probe', 'name': 'banner_limit_probe'})
+    for key, message in certificate_extension_name_probe():
+        run.finding(key, message, {'kind': 'probe', 'name': 'certificate_extension_name_probe'})
     run.notes.append('{} class-level cases, {} payload lengths; v00 certificates, X.509 host keys, the source-address option '
                      'and certificates reached through SshHostPublicKeyVariant are outside the model (UNMODELLED); the '
                      'certificate option encoding is probed directly'.format(len(cases), len(pads)))
@@ -590,5 +637,7 @@ def replay(case):
     if kind == 'obj':
         return ObjOracle.prop(case)
     if kind == 'probe':
-        return certificate_option_probe()
+        return {'banner_limit_probe': banner_limit_probe,
+                'certificate_extension_name_probe': certificate_extension_name_probe}.get(
+                    case.get('name'), certificate_option_probe)()
     return clsrun.ClsOracle.prop(case)
